@@ -2237,11 +2237,15 @@ func (r *Raft) preElectSelf() <-chan *preVoteResult {
 // persistVote is used to persist our vote for safety.
 func (r *Raft) persistVote(term uint64, candidate []byte) error {
 	verifHook("vote.begin", r, term, 0, 0, 0)
-	if err := r.stable.SetUint64(keyLastVoteTerm, term); err != nil {
+	// The candidate is written before the term: if the second write fails or
+	// we crash in between, the record pairs the new candidate with an older
+	// term, which no request can match any more. Writing the term first would
+	// leave the previous candidate recorded for the new term.
+	if err := r.stable.Set(keyLastVoteCand, candidate); err != nil {
 		return err
 	}
 	verifHook("vote.mid", r, term, 0, 0, 0)
-	if err := r.stable.Set(keyLastVoteCand, candidate); err != nil {
+	if err := r.stable.SetUint64(keyLastVoteTerm, term); err != nil {
 		return err
 	}
 	verifHook("vote.end", r, term, 0, 0, 0)
